@@ -91,6 +91,7 @@ fn main() {
         for s in corpus::STREAMS {
             println!("{} {}", s, corpus::count(s, tier == "thorough", scale));
         }
+        println!("trees {}", monitors::c17::tree_count(tier == "thorough", scale));
         return;
     }
     if cmd == "digest" {
